@@ -106,6 +106,13 @@ def as_nf(v):
     return NF(False, to_real(v))
 
 
+class OptV:
+    """Optional scalar (element of an Opt-typed vector): (is None, payload)."""
+
+    def __init__(self, none, val):
+        self.none, self.val = to_z3(none), val
+
+
 class Ref:
     """Pointer into the state's heap."""
     __slots__ = ("addr",)
@@ -400,6 +407,10 @@ def merge_val(c, a, b):
         return a
     if is_conc(a) and is_conc(b) and type(a) is type(b) and a == b:
         return a
+    if isinstance(a, OptV) or isinstance(b, OptV):
+        a = a if isinstance(a, OptV) else OptV(a is None, 0 if a is None else a)
+        b = b if isinstance(b, OptV) else OptV(b is None, 0 if b is None else b)
+        return OptV(z3.If(c, a.none, b.none), merge_val(c, a.val, b.val))
     if isinstance(a, NF) or isinstance(b, NF):
         a, b = as_nf(a), as_nf(b)
         return NF(z3.If(c, a.null, b.null), z3.If(c, a.val, b.val))
@@ -415,6 +426,9 @@ def merge_val(c, a, b):
                    idx=a.idx if a.idx is b.idx else None, elt=a.elt, kind=a.kind)
     if isinstance(a, Opaque) and isinstance(b, Opaque):
         return Opaque(z3.If(c, a.term, b.term), a.what)
+    if isinstance(a, SliceV) and isinstance(b, SliceV) and a.step in (None, 1) and b.step in (None, 1) \
+            and None not in (a.lo, a.hi, b.lo, b.hi):
+        return SliceV(merge_val(c, a.lo, b.lo), merge_val(c, a.hi, b.hi))
     a, b = atom_pair(a, b)
     if a is None or b is None:
         raise Unsupported("merge of None with a value (declare the variable Opt in the contract)")
